@@ -158,14 +158,20 @@ def run_roundtrip(c: Dict[str, Any]) -> Outcome:
         deliveries = 0
         while b.q and deliveries < 20:
             deliveries += 1
-            await r.callback(b.q.pop(0).message)
+            try:
+                await r.callback(b.q.pop(0).message)
+            except BaseException as e:  # noqa: BLE001
+                escaped.append(f"{type(e).__name__}: {short(e, 200)}")
         results = {}
         for n in range(len(calls)):
             if await b.result_backend.is_result_ready(f"T{n}"):
                 results[f"T{n}"] = await b.result_backend.get_result(f"T{n}")
         return seen, runs, results, deliveries
 
+    escaped: List[str] = []
     seen, runs, results, deliveries = asyncio.run(go())
+    for e in escaped:
+        out.add("C09.a", f"processing a delivery raised {e}; labels={short({**decl, **calls[0]['extra']}, 200)} codec={c['codec']}")
     for n, cl in enumerate(calls):
         tid = f"T{n}"
         plan = cl["plan"]
